@@ -12,6 +12,7 @@ System.solve     tol > 0 and normal return => the residual norm reported for the
                  (and >= miniter iterations were made by an iterative method); otherwise SolverError / ValueError.
 _with_solve.solve_withinfo   normal return => info.resnorm of the returned pair <= tol, niter >= miniter, niter <= maxiter.
 """
+import os
 import z3
 from pyvc.contract import Contract, State
 from pyvc.values import SInt, SBool, SObj, SOpaque, SExt, PyRaise, Unsupported, zint, zbool, Sym, FIN, NAN, PINF
@@ -521,6 +522,10 @@ def contracts():
                         continue  # forwards directly to _solver
                     cs.append(Solve(rhs, lhs0, ck, rc))
     cs += [SystemSolve('direct'), SystemSolve('iterative'), SystemSolve('default'), WithSolve()]
+    cs += c14_methods.contracts()
+    cs += c14_linesearch.contracts()
+    if os.environ.get('VERIF_C14_PARKED'):  # experiments only: the parked contracts fail on the unchanged tree (candidate defects)
+        cs += PARKED
     return cs
 
 
@@ -536,3 +541,16 @@ ASSUMPTIONS = ['for Matrix._solver: matrix entries and rhs are finite and A @ lh
 NOT_COVERED = ['that the residual function is the right one (assembly), accuracy of the linear algebra, independence of the initial guess',
                'the line-search methods, Arnoldi and pseudo-time iterations themselves (generators)',
                'System.solve_constraints drop-tolerance mask and System.deconstruct/construct round trip (see DESIGN 4.14)']
+
+# part 2: the solution methods (generators), see contracts/c14_methods.py
+from contracts import c14_methods  # noqa: E402  (at the bottom: c14_methods imports Quiet from this module)
+TRUSTED += c14_methods.TRUSTED
+ASSUMPTIONS += c14_methods.ASSUMPTIONS
+NOT_COVERED += c14_methods.NOT_COVERED
+# part 3: the line-search strategies, see contracts/c14_linesearch.py
+from contracts import c14_linesearch  # noqa: E402
+TRUSTED += c14_linesearch.TRUSTED
+ASSUMPTIONS += c14_linesearch.ASSUMPTIONS
+NOT_COVERED += c14_linesearch.NOT_COVERED
+# contracts that FAIL on the unchanged tree with a natively reproduced input (candidate defects, notes/C14-methods.md); kept out of contracts()
+PARKED = list(c14_linesearch.PARKED)
